@@ -3,16 +3,15 @@
    (publications, in order) to the calls it makes to Node.handlePublication, for every option
    combination (queue on/off, byte bound, broadcast delay) and every schedule of broadcasts,
    writer iterations, shared position checks (rate limit, retry, error) and close.
-   What the subscribers then do with those calls is Model/Positioned.v: a publication the
-   medium skipped (coalesced by the delay, dropped by the byte bound or by close) is a dropped
-   delivery there and the MaxUint64 marker is a delivery above every expected offset; C01
-   (Props/C01.v: C01_client_positioned / C01_server_positioned / C01_detect_spawns /
-   C01_no_pub_after_end) covers all such delivery sequences, so a positioned subscriber is
-   never moved past a lost publication silently and the marker ends its subscription, while
-   check_pub's non-positioned branch ignores it.  That composition is by citation, not a
-   single Coq theorem (PARTIAL); KeepLatestPublication / delta bases are not modelled. *)
+   What the subscribers then do with those calls is Model/Positioned.v; the two are composed in
+   Model/MediumPositioned.v (broker -> medium -> hub -> connection; the medium is the only
+   lossy element, the broker-to-node hop is loss-free as with the MemoryBroker), and
+   C38_composed / C38_marker_effect below are theorems about that composition.
+   Not modelled: KeepLatestPublication / delta bases; the marker reaching a subscription that
+   is still inside its subscribe window (it is then buffered with the PUB/SUB publications). *)
 From Coq Require Import List NArith Bool.
-From Cfg Require Import Model.Medium Proofs.Medium.
+From Cfg Require Import Model.Merge Model.Positioned Model.PositionedSpec Model.Medium Model.MediumPositioned
+  Proofs.PositionedLib Proofs.Medium Proofs.MediumPositioned.
 Import ListNotations.
 Open Scope N_scope.
 
@@ -38,6 +37,49 @@ Print Assumptions C38_marker_kept.
 Theorem C38_oracle_subseq_sound : forall a b, subseq a b qitem_eqb = true -> Sub a b.
 Proof. exact subseq_sound. Qed.
 Print Assumptions C38_oracle_subseq_sound.
+
+(* ---- the composition with the connection / subscription system ---- *)
+
+(* every option combination, every schedule of publishes, writer iterations, shared position
+   checks, close, forwarding and connection-side steps ([good c]: positioned subscription, see
+   Props/C01.v): the subscriber's transport log satisfies C01's specification -- offsets
+   strictly increase above the announced position and every offset up to the last delivered one
+   was delivered or withheld by the filter, so the subscription is NEVER MOVED PAST A
+   PUBLICATION THE MEDIUM LOST (coalesced, dropped by the byte bound or by close) -- nothing
+   positioned follows its end frame, and the medium forwards a subsequence of its input *)
+Theorem C38_composed : forall c o now ls x,
+  good c -> xrun c o (xinit now) ls = Some x ->
+  C01Spec (g_log (xp x)) (log (xp x)) /\
+  no_pub_after_end (log (xp x)) = true /\
+  Proofs.Medium.Sub (mout (xm x)) (g_in (xm x)).
+Proof. exact c38_composed. Qed.
+Print Assumptions C38_composed.
+
+(* a detected position loss ends the affected positioned subscriptions and leaves
+   non-positioned ones untouched: forwarding the marker to an established subscription and
+   running its position check writes nothing, keeps the channel context, and spawns the
+   insufficient-state unsubscribe / disconnect iff the subscription is positioned (what the
+   spawned goroutine then writes: C01_pending_ends_client / C01_pending_ends_server) *)
+Theorem C38_marker_effect : forall c o x pos pep,
+  nth_error (mout (xm x)) (xfwd x) = Some QInsuff ->
+  ch (xp x) = Positioned.Sub pos pep -> dl (xp x) = DIdle -> hub (xp x) = true -> ps_entry (xp x) = false ->
+  exists x', xrun c o x [XForward; XPos LCheck] = Some x' /\
+             log (xp x') = log (xp x) /\ ch (xp x') = ch (xp x) /\ dl (xp x') = DIdle /\
+             pending (xp x') = (if c_pos c then S (pending (xp x)) else pending (xp x)).
+Proof. exact c38_marker_effect. Qed.
+Print Assumptions C38_marker_effect.
+
+(* non-vacuity of the composition: queue + delay; publications 1..3 coalesced into 3, which the
+   subscriber (position 0) cannot accept -> insufficient-state unsubscribe instead of delivery *)
+Example C38_composed_run :
+  option_map (fun x => (mout (xm x), log (xp x)))
+    (xrun (mkCfg VClient true false 0 0 false false false false false false false) (mkMO true 0 true) (xinit 0)
+       [XPos LReserve; XPos LStartBuf; XPos LHubAdd; XPos LHistRead; XPos LMerge; XPos LWriteReply; XPos LCommit; XPos LStopBuf;
+        XPublish false 100%nat 1 0; XPublish false 100%nat 1 0; XPublish false 100%nat 1 0;
+        XMedium MWriter; XForward; XPos LSync; XPos LCheck;
+        XPos (LUnsub UInsuff); XPos LUnsubHub; XPos LUnsubOut])
+  = Some ([QPub 3 1], [FSubReply false [] 0 1; FUnsubPush 2500]).
+Proof. vm_compute. reflexivity. Qed.
 
 (* non-vacuity: delay coalescing sends the marker in place of the run before it, then the last
    publication of the next run *)
